@@ -1,6 +1,5 @@
 PROP = dict(
     id="C07",
-    disabled=True,
     engines=["c07"],
     go_tags=["c07"],
     gen_files={"MM/Gen/C07.lean": "c07"},
@@ -40,8 +39,8 @@ PROP = dict(
          "(thorough: random sizes, 40 writes of 1-4 MiB, 4 MiB on every path); cap in {unlimited,1000,4096,16355,16356,16357,16384,32768,random}; "
          "each op runs the path's REAL sender (meshConn.Write, exit/forward readLoop, shell pumpStdout/pumpStderr/pumpPTYOutput, "
          "forwardShellClientData, streamFileContent, sendFileDownload) through the real peer manager / FrameWriter / Frame.Encode into a "
-         "capture buffer, parses the bytes back with the real FrameReader and opens every data frame with the peer half of a real "
-         "X25519/HKDF/ChaCha20-Poly1305 session; compared field by field (frame count, every payload length, far-end result) with the Lean "
+         "capture buffer, parses the bytes back with the real FrameReader, opens every data frame with the peer half of a real "
+         "X25519/HKDF/ChaCha20-Poly1305 session AND feeds the frames to the path's real far-end receiver; compared field by field (frame count, every payload length, far-end result) with the Lean "
          "model; non-trivial = at least one data frame was written",
     nontrivial=lambda op, out: " data=0 " not in out,
     trusted_base=[
@@ -55,10 +54,14 @@ PROP = dict(
     ],
     assumptions=[
         "frames are delivered to the far end in order and unmodified (transport + relay forwarding are C16-C18's subject)",
-        "shell stdin: the CLI client's 4096-byte read buffer is taken from the source text (shell.Client.pumpStdin needs a terminal and a "
-        "WebSocket; not executed); third-party WebSocket clients sending STDIN messages over 16355 bytes are outside the theorem "
-        "(Agent.forwardShellClientData then gets ErrFrameTooLarge and closes the session)",
-        "receivers' own buffering after opening a frame (meshConn.Read partial reads, ShellStreamAdapter.PushReceive drop-after-100ms) is not modelled",
+        "shell stdin is modelled from the point where handleShellWebSocket queues a client message (any size) for "
+        "Agent.forwardShellClientData; the CLI's own stdin loop (shell.Client.pumpStdin, 4096-byte reads, needs a terminal and a "
+        "WebSocket) is not executed, its buffer size is only recorded in MM/Gen/C07Ast.lean",
+        "control messages that are sealed whole and passed to WriteStreamData (file-transfer metadata, shell META/ACK/ERROR/EXIT) are "
+        "checked against the frame limit in the differential run (ctl=ok) but are not part of the re-assembly theorem",
+        "receivers' buffering after a frame is opened is exercised by the differential run (real meshConn.Read with odd buffer sizes, "
+        "exit.HandleStreamData, handleShellClientData, shell.HandleStreamData, receiveEncryptedStreamData) but not modelled; "
+        "ShellStreamAdapter.PushReceive drops a message when the WebSocket consumer stalls for 100 ms with 64 messages queued (timing, outside C07's model)",
     ],
     manifest=dict(
         category="proof",
@@ -71,3 +74,21 @@ PROP = dict(
         technique="Lean 4 proof (induction over pieces; decide on regenerated constants) + AST/measured facts + differential correspondence harness",
     ),
 )
+
+
+def before_diff(c):
+    """When a theorem's premise is false on the tree under examination (MM.Props.C07 does not build), the model and
+    its driver are still fine: build the driver on its own so that the differential run and the failing-input search
+    go ahead and the replay carries a concrete write that breaks the property."""
+    import os, shutil, sys
+    vlib = sys.modules["vlib"]
+    if getattr(c, "lake_ok", True) or "c07" in c.drivers or not c.harness:
+        return
+    ok, out, _failed = vlib.lake_build(["drv_c07"])
+    src = os.path.join(vlib.LEAN, ".lake", "build", "bin", "drv_c07")
+    if ok and os.path.exists(src):
+        dst = os.path.join(c.tmp, "drv_c07")
+        shutil.copy2(src, dst)
+        c.drivers["c07"] = dst
+    else:
+        c.oblige("lean:drv_c07-standalone", "thm", False, out[-1500:])
